@@ -78,6 +78,13 @@ func (e *Encoder) memoized(x starlark.Value) (int, bool) {
 
 func (e *Encoder) memoize(x starlark.Value) {
 	if reflect.TypeOf(x).Comparable() {
+		// An object that is pickled by its arguments is memoized once they have been written.
+		// If it was reached again through them (and memoized then), memoizing it a second time
+		// would number the memo differently from the decoder, which counts MEMOIZE opcodes.
+		if _, ok := e.memo[x]; ok {
+			return
+		}
+
 		id := len(e.memo)
 		e.memo[x] = id
 
